@@ -228,6 +228,65 @@ def rebuild_full(bank, idx, D):
     return full
 
 
+LIB_RTOL, LIB_ATOL = 1e-8, 1e-10   # "to round-off": double-precision evaluation of sums of a few hundred terms
+
+
+def lib_close(got, want, upper):
+    """want - tol <= got <= upper + tol, element-wise (upper = want except where round-off slack applies)"""
+    tol = LIB_ATOL + LIB_RTOL * np.maximum(np.abs(want), np.abs(upper))
+    return (got >= want - tol) & (got <= upper + tol)
+
+
+def library_want(bank, flags, style, kaldi, wname, x, L, S, D, nfr, ncoef):
+    """the property's formula, evaluated independently of the computer (full DFT, rebuilt responses)"""
+    from pydrobert.speech import filters, config
+
+    N = len(x)
+    if style == "causal":
+        origin = 0
+    elif kaldi:
+        origin = -(L // 2) + S // 2
+    else:
+        origin = -((L + 1) // 2) + 1
+    if wname is None:
+        wf = filters.GammaWindow() if style == "causal" else filters.HannWindow()
+    else:
+        wf = {"hann": filters.HannWindow, "hamming": filters.HammingWindow, "bartlett": filters.BartlettWindow,
+              "blackman": filters.BlackmanWindow, "gamma": filters.GammaWindow}[wname]()
+    win = wf.get_impulse_response(L)
+    Hs = [rebuild_full(bank, i, D) for i in range(bank.num_filts)]
+    p = 2 if flags["use_power"] else 1
+    want = np.zeros((nfr, ncoef))
+    # A real bank's coefficient is computed as twice the half-spectrum sum, which counts the DC and (even D) Nyquist
+    # bins twice.  Their taps are zero in exact arithmetic (a vertex that lies ON the Nyquist frequency); in floating
+    # point a vertex a few ulp beyond it leaves a tap of the order sqrt(eps) ~ 1e-8.  Taps that small (relative to the
+    # filter's peak) are round-off: the bins' double-counted contribution is allowed as slack, larger ones are not.
+    slack = np.zeros((nfr, ncoef))
+    selfdual = [0] + ([D // 2] if D % 2 == 0 else [])
+    for k in range(nfr):
+        fr = np.asarray([x[sym_index(N, k * S + origin + i)] for i in range(L)])
+        col = 0
+        if flags["include_energy"]:
+            e = float(np.sum(fr * fr) / L)
+            if not flags["use_power"]:
+                e = e ** 0.5
+            want[k, 0] = e
+            col = 1
+        X = np.fft.fft(fr * win, n=D)
+        for i, H in enumerate(Hs):
+            want[k, col + i] = np.sum(np.abs(X * H) ** p)
+            if bank.is_real:
+                peak = float(np.max(np.abs(H))) if len(H) else 0.0
+                for b in selfdual:
+                    if 0 < abs(H[b]) <= 1e-6 * peak:
+                        slack[k, col + i] += abs(X[b] * H[b]) ** p
+    upper = want + slack
+    if flags["use_log"]:
+        want = np.log(np.maximum(want, config.LOG_FLOOR_VALUE))
+        upper = np.log(np.maximum(upper, config.LOG_FLOOR_VALUE))
+    return want, upper
+
+
 def library_oracle(ctx):
     from pydrobert.speech import config
 
@@ -267,13 +326,14 @@ def library_oracle_(ctx, floor0):
             kind, scale, rate, lo, hi, nf = corner
         if isinstance(scale, dict) and scale.get("name") == "octave" and lo < 30.0:
             lo = 30.0
+        fb_analytic = r.random() < 0.3
         try:
             if kind == "gabor":
                 bank = filters.GaborFilterBank(scale, num_filts=nf, low_hz=lo, high_hz=hi, sampling_rate=rate)
             elif kind == "gammatone":
                 bank = filters.ComplexGammatoneFilterBank(scale, num_filts=nf, low_hz=lo, high_hz=hi, sampling_rate=rate)
             elif kind == "fbank":
-                bank = filters.Fbank(num_filts=nf, low_hz=lo, high_hz=hi, sampling_rate=rate, analytic=r.random() < 0.3)
+                bank = filters.Fbank(num_filts=nf, low_hz=lo, high_hz=hi, sampling_rate=rate, analytic=fb_analytic)
             else:
                 bank = filters.TriangularOverlappingFilterBank(scale, num_filts=nf, low_hz=lo, high_hz=hi,
                                                                sampling_rate=rate, analytic=(kind == "tri_analytic"))
@@ -312,9 +372,12 @@ def library_oracle_(ctx, floor0):
         level = r.choice([1.0, 1.0, 1e-2, 1e-4, 0.0])
         if corner:
             N, level = 2 * L + 5, 1.0
-        x = np.random.RandomState(r.randrange(1 << 30)).randn(N) * level
+        xseed = r.randrange(1 << 30)
+        x = np.random.RandomState(xseed).randn(N) * level
         x.setflags(write=False)
-        case = dict(kind="library", log_floor_after_ctor=floor_changed, level=level, bank=kind, scale=str(scale), num_filts=nf, rate=rate, low=lo, high=hi, L=L, S=S, D=D,
+        # everything needed to rebuild the case (see `library_replay`)
+        case = dict(kind="library", log_floor_after_ctor=floor_changed, level=level, xseed=xseed, bank=kind, scale=scale, fb_analytic=fb_analytic,
+                    num_filts=nf, rate=rate, low=lo, high=hi, frame_length_ms=flen, frame_shift_ms=shift, L=L, S=S, D=D,
                     style=style, kaldi=kaldi, window=wname, N=N, **flags)
         ctx.case(case, kind="library:" + kind)
         try:
@@ -332,38 +395,11 @@ def library_oracle_(ctx, floor0):
         if got.shape != (nfr, ncoef):
             ctx.violation(case, [nfr, ncoef], list(got.shape), "(N + S//2)//S frames of num_filts(+1) coefficients", tags=dict(clause="shape"))
             continue
-        # independent evaluation
-        if style == "causal":
-            origin = 0
-        elif kaldi:
-            origin = -(L // 2) + S // 2
-        else:
-            origin = -((L + 1) // 2) + 1
-        if wname is None:
-            wf = filters.GammaWindow() if style == "causal" else filters.HannWindow()
-        else:
-            wf = {"hann": filters.HannWindow, "hamming": filters.HammingWindow, "bartlett": filters.BartlettWindow,
-                  "blackman": filters.BlackmanWindow, "gamma": filters.GammaWindow}[wname]()
-        win = wf.get_impulse_response(L)
-        Hs = [rebuild_full(bank, i, D) for i in range(bank.num_filts)]
-        p = 2 if flags["use_power"] else 1
-        want = np.zeros((nfr, ncoef))
-        for k in range(nfr):
-            fr = np.asarray([x[sym_index(N, k * S + origin + i)] for i in range(L)])
-            col = 0
-            if flags["include_energy"]:
-                e = float(np.sum(fr * fr) / L)
-                if not flags["use_power"]:
-                    e = e ** 0.5
-                want[k, 0] = e
-                col = 1
-            X = np.fft.fft(fr * win, n=D)
-            for i, H in enumerate(Hs):
-                want[k, col + i] = np.sum(np.abs(X * H) ** p)
-        if flags["use_log"]:
-            want = np.log(np.maximum(want, config.LOG_FLOOR_VALUE))
-        if not np.allclose(got, want, rtol=1e-8, atol=1e-10):
-            bad = np.argwhere(~np.isclose(got, want, rtol=1e-8, atol=1e-10))[0].tolist()
+        want, upper = library_want(bank, flags, style, kaldi, wname, x, L, S, D, nfr, ncoef)
+        if np.any(upper > want):
+            ctx.count("selfdual_tap_roundoff_slack")
+        if not lib_close(got, want, upper).all():
+            bad = np.argwhere(~lib_close(got, want, upper))[0].tolist()
             ctx.violation(case, float(want[tuple(bad)]), float(got[tuple(bad)]),
                           "coefficient == documented definition (independent full-spectrum evaluation); at %s" % bad,
                           tags=dict(clause="library_value", bank=kind, real=bool(bank.is_real)))
@@ -406,5 +442,46 @@ def replay(rp):
         print("impl rows:", sc.as_int_rows(comp.compute_full(sc.sig(0, N))))
         out = common.Driver("C02").run([sc.ops_line(L, S, ce, ka, ["F%d" % N])])[0]
         print("model rows:", sc.expected_from_model(out, ["F%d" % N], taps, same_signal=True))
+    elif case.get("kind") == "library" and "xseed" in case:
+        return library_replay(case, rp)
     print("oracle:", rp.get("oracle"), "expected", rp.get("expected"), "got", rp.get("got"))
     return 0
+
+
+def library_replay(case, rp):
+    """rebuild the recorded bank / computer / signal and compare the implementation with the independent evaluation"""
+    from pydrobert.speech import compute, filters, config
+
+    kind, scale, nf, lo, hi, rate = (case[k] for k in ("bank", "scale", "num_filts", "low", "high", "rate"))
+    if kind == "gabor":
+        bank = filters.GaborFilterBank(scale, num_filts=nf, low_hz=lo, high_hz=hi, sampling_rate=rate)
+    elif kind == "gammatone":
+        bank = filters.ComplexGammatoneFilterBank(scale, num_filts=nf, low_hz=lo, high_hz=hi, sampling_rate=rate)
+    elif kind == "fbank":
+        bank = filters.Fbank(num_filts=nf, low_hz=lo, high_hz=hi, sampling_rate=rate, analytic=case["fb_analytic"])
+    else:
+        bank = filters.TriangularOverlappingFilterBank(scale, num_filts=nf, low_hz=lo, high_hz=hi, sampling_rate=rate,
+                                                       analytic=(kind == "tri_analytic"))
+    flags = {k: case[k] for k in ("use_log", "use_power", "include_energy", "pad_to_nearest_power_of_two")}
+    comp = compute.STFTFrameComputer(bank, frame_length_ms=case["frame_length_ms"], frame_shift_ms=case["frame_shift_ms"],
+                                     frame_style=case["style"], kaldi_shift=case["kaldi"], window_function=case["window"], **flags)
+    if case.get("log_floor_after_ctor") is not None:
+        config.LOG_FLOOR_VALUE = case["log_floor_after_ctor"]
+    L, S, D, N = comp.frame_length, comp.frame_shift, case["D"], case["N"]
+    x = np.random.RandomState(case["xseed"]).randn(N) * case["level"]
+    got = comp.compute_full(x)
+    ncoef = bank.num_filts + int(flags["include_energy"])
+    nfr = (N + S // 2) // S if N >= L // 2 + 1 else 0
+    print("impl: shape", got.shape, "documented shape", (nfr, ncoef))
+    ok = got.shape == (nfr, ncoef)
+    if ok and nfr:
+        want, upper = library_want(bank, flags, case["style"], case["kaldi"], case["window"], x, L, S, D, nfr, ncoef)
+        err = np.abs(got - want)
+        k = np.unravel_index(int(np.argmax(err / (1e-10 + 1e-8 * np.abs(want)))), err.shape)
+        print("max |impl - definition| = %.3g at %s: impl %.17g definition %.17g" % (float(err.max()), list(k), got[k], want[k]))
+        ok = bool(lib_close(got, want, upper).all())
+        if np.any(upper > want):
+            print("(round-off slack for double-counted DC/Nyquist taps below 1e-6 of the peak: max %.3g)" % float((upper - want).max()))
+    print("recorded:", rp.get("oracle"), "expected", rp.get("expected"), "got", rp.get("got"))
+    print("REPRODUCED" if not ok else "not reproduced (the property holds on this input now)")
+    return 0 if ok else 1
